@@ -340,6 +340,9 @@ Definition dispatch (c : ctl) (rid : Z) (r : region) (from_heartbeat : bool) : c
   end.
 
 (* ---------- events ---------- *)
+(* the exported methods of Operator that move its status: Start Cancel Replace CheckExpired CheckTimeout CheckSuccess Check *)
+Inductive poke := PStart | PCancel | PReplace | PCheckExpired | PCheckTimeout | PCheckSuccess | PCheck.
+
 Inductive ev :=
 | ECreate (id rid cv ver : Z) (steps : list step) (level : Z) (kregion : bool) (desc : Z)
 | EAdd (ids : list Z)
@@ -353,7 +356,8 @@ Inductive ev :=
 | EForeign (rid : Z) (c : cmd) (* somebody else changes the region (also: leader moves, split) *)
 | EAge (id : Z)               (* time passes: created long ago *)
 | ESlow (id : Z)              (* time passes: started long ago *)
-| ERegion (rid : Z) (r : region).   (* a region comes into existence (store side and PD cache) *)
+| ERegion (rid : Z) (r : region)    (* a region comes into existence (store side and PD cache) *)
+| EPoke (id : Z) (k : poke).        (* somebody holding the *Operator calls one of its exported status methods *)
 
 Inductive dres := DAccepted | DStale | DRejected | DNone.
 
@@ -412,6 +416,21 @@ Fixpoint remove_first_for (rid : Z) (l : list msg) : list msg :=
   end.
 
 Definition sent_since (c c' : ctl) : list msg := skipn (length (inbox c)) (inbox c').
+
+(* result: the method's boolean (Check: whether a step is handed out), -1 if Check has no cached region to look at *)
+Definition poke_op (c : ctl) (o : opr) (k : poke) : opr * Z :=
+  match k with
+  | PStart => let '(o', ok) := op_to o STARTED in (o', b2z' ok)
+  | PCancel => let '(o', ok) := op_to o CANCELED in (o', b2z' ok)
+  | PReplace => let '(o', ok) := op_to o REPLACED in (o', b2z' ok)
+  | PCheckExpired => let '(o', b) := check_expired o in (o', b2z' b)
+  | PCheckTimeout => let '(o', b) := check_timeout o in (o', b2z' b)
+  | PCheckSuccess => let '(o', b) := check_success o in (o', b2z' b)
+  | PCheck => match alist_get (cache c) (o_rid o) with
+              | Some r => let '(o', st) := op_check o r in (o', b2z' (is_some st))
+              | None => (o, -1)
+              end
+  end.
 
 Definition ctl_step (c : ctl) (e : ev) : ctl * obs :=
   match e with
@@ -472,6 +491,11 @@ Definition ctl_step (c : ctl) (e : ev) : ctl * obs :=
   | ESlow id =>
       let c' := match get_op c id with Some o => set_op c (with_flags o (o_old o) true) | None => c end in
       (c', snapshot c' (-1) [] None DNone)
+  | EPoke id k =>
+      match get_op c id with
+      | Some o => let c' := set_op c (fst (poke_op c o k)) in (c', snapshot c' (snd (poke_op c o k)) [] None DNone)
+      | None => (c, snapshot c (-1) [] None DNone)
+      end
   end.
 
 Definition init (maxw : Z) : ctl := Ctl [] [] [] [] [] [] [] [] maxw.
@@ -681,7 +705,64 @@ Definition monitor_step (m : mon) (e : ev) (o : obs) : mon * option string :=
         end
     | _ => None
     end in
-  (m', first_some [v_one; v_path; v_left; v_admit; v_stamp; v_stale]).
+  (* a slow (started long ago) operator does not survive a dispatch of its region as STARTED *)
+  let v_slow :=
+    match e with
+    | EHeartbeat rid | EPush rid =>
+        match alist_get (prev_running m) rid, alist_get (cache c') rid with
+        | Some id, Some _ =>
+            match get_op c id, alist_get (b_status o) id with
+            | Some op, Some after =>
+                if o_slow op && status_eqb (o_st op) STARTED && status_eqb after STARTED
+                then Some "C09:slow-operator-still-running" else None
+            | _, _ => None
+            end
+        | _, _ => None
+        end
+    | _ => None
+    end in
+  (* REPLACED means: another operator, of strictly higher priority, took the region in the same call *)
+  let v_repl :=
+    match e with
+    | EPoke _ _ => None
+    | _ =>
+        first_some (map (fun x =>
+          if status_eqb (snd x) REPLACED
+             && negb (match alist_get (prev_status m) (fst x) with Some p => status_eqb p REPLACED | None => false end)
+          then match get_op c' (fst x) with
+               | Some old =>
+                   match alist_get (b_running o) (o_rid old) with
+                   | Some nid =>
+                       if nid =? fst x then Some "C09:replaced-by-nothing"
+                       else match e, get_op c' nid with
+                            | EAdd [_], Some nw | EPromote, Some nw | EAddWaiting _, Some nw =>
+                                if o_level old <? o_level nw then None else Some "C09:replaced-by-not-higher-priority"
+                            | _, _ => None
+                            end
+                   | None => Some "C09:replaced-by-nothing"
+                   end
+               | None => None
+               end
+          else None) (b_status o))
+    end in
+  (* a direct call of a status method makes at most one transition of the property's relation; an ended operator
+     hands out no step *)
+  let v_poke :=
+    match e with
+    | EPoke id k =>
+        match alist_get (prev_status m) id, alist_get (b_status o) id with
+        | Some before, Some after =>
+            if negb (status_eqb before after || spec_trans before after)
+            then Some (sapp "C09:status-path:" (sapp (status_name before) (sapp "->" (status_name after))))
+            else match k with
+                 | PCheck => if spec_end before && (0 <? b_res o) then Some "C09:ended-operator-hands-out-a-step" else None
+                 | _ => None
+                 end
+        | _, _ => None
+        end
+    | _ => None
+    end in
+  (m', first_some [v_one; v_poke; v_path; v_left; v_admit; v_stamp; v_stale; v_slow; v_repl]).
 
 Fixpoint monitor_run (m : mon) (es : list ev) (os : list obs) : option string :=
   match es, os with
